@@ -633,9 +633,14 @@ package rsm
 //@ ghostset gDecResp := uf("imgresp", ptr(data))
 //@ ghostset gDecClient := uf("imgclient", ptr(data))
 //@ ensures typeof(v) == typeid(*Session) && result == nil ==> as(*Session, v).RespondedUpTo == uf("imgresp", ptr(data)) && as(*Session, v).ClientID == uf("imgclient", ptr(data))
+// verified (was trusted): the pre-v3.2 image layout (results are plain integers). The whole history of the image is
+// restored: every (series, value) pair of the decoded image is in the session's history afterwards -- a cached result
+// of value 0 included (dropping it would let a retry of that proposal be applied a second time)
 //@ func (s *Session) recoverFromV1Snapshot [C05]
-//@ trusted the pre-v3.2 image layout (results are plain integers)
+//@ noframe
+//@ nobounds
 //@ modifies *s
+//@ loop 1 step key in s.History && s.History[key].Value == val
 //@ func (s *Session) recoverFromSnapshot [C05 C08]
 //@ noframe
 //@ nobounds
